@@ -270,7 +270,7 @@ class Gen(object):
             self.emit(ind, 'for i in range(%d):' % r.randint(0, 2))
             self.block(sub, depth + 1, allow_def)
         elif k < 0.82:
-            self.emit(ind, 'while x == 5:')
+            self.emit(ind, 'while x == 55:')
             self.block(sub, depth + 1, allow_def)
         elif k < 0.9:
             self.emit(ind, 'with ctx() as c, \\\n%sctx():' % (' ' + self.ws()))
